@@ -33,7 +33,9 @@ package fasthttp
 // including at the end (the postconditions are the property statement; the loop invariants are the proof).
 //@ func normalizePath results r
 //@   property C26 C23
-//@   modifies *
+//@   modifies dst
+//@   frame assumed
+//@   ensures[storage]          reuses(r, dst)
 //@   ensures[leading-slash]    len(r) >= 1 && r[0] == '/'
 //@   ensures[no-empty-segment] noSS(r, len(r))
 //@   ensures[no-dot-segment]   noSDS(r, len(r)) && noSDDS(r, len(r))
@@ -45,5 +47,7 @@ package fasthttp
 //@     invariant[prefix] forall j in [0, off(b) - off(dst)): !(dst[j] == '/' && dst[j+1] == '/')
 //@   loop 2:
 //@     invariant[shape] 1 <= len(b) && b[0] == '/' && noSS(b, len(b))
+//@     invariant[storage] rgn(b) == rgn(dst) && off(b) == off(dst) && cap(b) == cap(dst)
 //@   loop 3:
 //@     invariant[shape] 1 <= len(b) && b[0] == '/' && noSS(b, len(b)) && noSDS(b, len(b))
+//@     invariant[storage] rgn(b) == rgn(dst) && off(b) == off(dst) && cap(b) == cap(dst)
